@@ -155,7 +155,7 @@ func relevant(s *Site) bool {
 		return false
 	}
 	switch s.Class {
-	case "peerclose", "panic", "msgsend", "detailsuse":
+	case "peerclose", "panic", "msgsend", "detailsuse", "nilparam":
 		return true
 	}
 	return s.Origin != "internal"
@@ -319,6 +319,8 @@ func mirrorSafe(s *Site) bool {
 		return s.Guarded
 	case "callpanic":
 		return false
+	case "nilparam":
+		return s.Guarded
 	case "detailsuse":
 		return s.Guard == "locked" || s.Guard == "after-removal" || s.Guard == "fresh"
 	}
